@@ -196,7 +196,8 @@ Print Assumptions C13_table_wf_of_write_partial.
 
 (* C.4  the round trip end to end (same scope as C.3): a table written from strictly increasing
    pairs and opened again yields exactly those pairs — exact lookups, first-key->= lookups,
-   iteration in both directions under arbitrary movement sequences, non-decreasing offsets. *)
+   full and range-restricted iteration in both directions under arbitrary movement sequences,
+   non-decreasing offsets. *)
 Theorem C13_table_roundtrip_partial :
   forall tp crc compress decompress fcontains c blockSize ri fgen kvs file verify strict,
   tparams_ok tp -> (forall b, (crc b < 2 ^ 32)%N) -> (forall x, decompress (compress x) = Some x) ->
@@ -214,7 +215,10 @@ Theorem C13_table_roundtrip_partial :
   (exists t, new_titer c rd None strict = inr t /\
      forall ops, fst (ti_run c rd t ops) = c_run c kvs CSOI ops) /\
   (forall k1 k2, cmp c k1 k2 <> Gt ->
-     exists o1 o2, toffset_of c rd k1 = Ok o1 /\ toffset_of c rd k2 = Ok o2 /\ (o1 <= o2)%N).
+     exists o1 o2, toffset_of c rd k1 = Ok o1 /\ toffset_of c rd k2 = Ok o2 /\ (o1 <= o2)%N) /\
+  (kvs <> [] -> forall start limit,
+     exists t, new_titer c rd (Some (start, limit)) strict = inr t /\
+       forall ops, fst (ti_run c rd t ops) = c_run c (restrict c start limit kvs) CSOI ops).
 Proof. exact table_roundtrip. Qed.
 Print Assumptions C13_table_roundtrip_partial.
 
@@ -255,6 +259,18 @@ Example C13_nonvacuous :
 Proof.
   split; [exact bytewise_ok|]. split; [vm_compute; auto|]. split; [vm_compute; reflexivity|].
   split; vm_compute; reflexivity.
+Qed.
+
+(* The hypotheses of C.3/C.4 are satisfiable: the bytewise comparer is lawful and has the empty
+   key least, the CRC instance stays below 2^32, the identity codec satisfies the contract, the
+   generated constants satisfy tparams_ok. *)
+Example C13_write_hypotheses_satisfiable :
+  comparer_ok bytewise /\ (forall k, cmp bytewise [] k <> Gt) /\ (forall b, (tbl_crc b < 2 ^ 32)%N) /\
+  (forall x : bytes, (fun y => Some y) ((fun y : bytes => y) x) = Some x) /\ tparams_ok tblp.
+Proof.
+  split; [exact bytewise_ok|]. split; [intros [|x k]; cbn; discriminate|].
+  split; [intros b; unfold tbl_crc, crc_mask; apply N.mod_lt; discriminate|].
+  split; [reflexivity | exact tblp_ok].
 Qed.
 
 (* Non-vacuity of table_wf: a seven-pair table written by the model writer (block size 24, restart
